@@ -65,13 +65,18 @@ def listener_config(kind):
     saved = {n: list(getattr(gc, n)) for n in vars(gc) if n.startswith("_container_")}
     from spydrnet.global_state import global_service as gs
     saved_lookups = dict(gs._registered_lookups)
+    from spydrnet.plugins import namespace_manager as nm
+    saved_default = nm.default
     try:
         if kind in ("none", "recorder"):
             for n in saved:
                 getattr(gc, n).clear()
             gs._registered_lookups.clear()
+        elif kind.startswith("manager:"):
+            nm.default = kind.split(":")[1]
         yield
     finally:
+        nm.default = saved_default
         for n, v in saved.items():
             lst = getattr(gc, n)
             lst.clear()
@@ -100,6 +105,8 @@ def build(state):
     for g, o in S.items():
         if o["cls"] in FCE:
             for k, v in o["_data"].items():
+                if k == ".NS" and k in objs[g]:
+                    continue          # written by the naming plug-in at creation
                 objs[g][k] = v
         if o["cls"] in ("Port", "Cable"):
             objs[g].is_downto = o["_is_downto"]
@@ -182,6 +189,25 @@ def abstract(objs):
     return out, extra
 
 
+def ns_snapshot(objs):
+    """the naming plug-in's tables as {(parent gid, child type, key kind, name): child gid}"""
+    from spydrnet.plugins import namespace_manager as nm
+    ids = {id(o): g for g, o in objs.items()}
+    out = {}
+    for g, o in objs.items():
+        try:
+            ns = nm.namespaces.get(o)
+        except TypeError:
+            ns = None
+        if ns is None:
+            continue
+        for kind, table in (("name", getattr(ns, "namespaces", {})), ("edif", getattr(ns, "edif_namespaces", {}))):
+            for T, tab in table.items():
+                for name, child in tab.items():
+                    out["%d/%s/%s/%s" % (g, T.__name__, kind, name)] = ids.get(id(child), "foreign-object")
+    return out
+
+
 def states_equal(model_state, built):
     diffs = []
     for g, o in model_state["objects"].items():
@@ -232,13 +258,17 @@ def run_replay(rp):
         args = [resolve_arg(a, objs) for a in call["args"]]
         kwargs = {k: resolve_arg(a, objs) for k, a in call.get("kwargs", {}).items()}
         before, _ = abstract(objs)
+        ns_before = ns_snapshot(objs) if str(rp.get("listeners", "")).startswith("manager:") else None
         raised = None
         lst = None
         if rp.get("listeners") == "recorder":
             lst = wellformed.MirrorListener(wellformed.closure(list(objs.values())))
+        retval = None
         try:
             m = call["method"]
-            if m.startswith("set:"):
+            if m == "clone":
+                retval = recv.clone()
+            elif m.startswith("set:"):
                 setattr(recv, m[4:], args[0])
             elif m.startswith("del:"):
                 delattr(recv, m[4:])
@@ -269,10 +299,31 @@ def run_replay(rp):
                         if before[g][k] != after[g][k]:
                             diffs.append("%s#%d.%s: %r -> %r" % (before[g]["cls"], g, k, before[g][k],
                                                                   after[g][k]))
+            if ns_before is not None:
+                ns_after = ns_snapshot({g: o for g, o in objs.items() if g in before})
+                for k in sorted(set(ns_before) | set(ns_after)):
+                    if ns_before.get(k) != ns_after.get(k):
+                        diffs.append("name table %s: %r -> %r" % (k, ns_before.get(k), ns_after.get(k)))
             txt = "%s.%s(%s) raised %s: %s; state changes: %s" % (
                 type(recv).__name__, call["method"], call["args"], type(raised).__name__,
                 str(raised)[:80], diffs[:5])
             return bool(diffs), txt
+        if kind == "clone":
+            if raised is not None:
+                return False, "clone raised %s on the real code" % type(raised).__name__
+            probs = wellformed.clone_problems(recv, retval, rp["check"].get("whole_netlist", False))
+            allo = dict(objs)
+            allo[-1000] = retval
+            probs += wellformed.c01_problems(wellformed.closure(list(allo.values())))
+            probs += wellformed.c02_problems(wellformed.closure(list(allo.values())))
+            if not rp["check"].get("whole_netlist", False):
+                probs = [p for p in probs]
+            chg = []
+            for g in before:
+                for k in before[g]:
+                    if before[g][k] != after[g][k] and k != "_references":
+                        chg.append("source %s#%d.%s changed" % (before[g]["cls"], g, k))
+            return bool(probs or chg), "%s#%d.clone(): %s" % (type(recv).__name__, call["self"], (probs + chg)[:5])
         if kind in ("mirror", "phantom", "before"):
             how = "raised %s" % type(raised).__name__ if raised else "returned"
             head = "%s.%s(%s) %s; announcements %s" % (type(recv).__name__, call["method"],
